@@ -32,7 +32,7 @@ import (
 )
 
 func init() {
-	evid.Register(&evid.Check{ID: "C10", Level: "exploration", Run: run, QuickBudget: 150 * time.Second, ThoroughBudget: 45 * time.Minute})
+	evid.Register(&evid.Check{ID: "C10", Level: "exploration", Run: run, QuickBudget: 300 * time.Second, ThoroughBudget: 45 * time.Minute})
 }
 
 // Case is what gets written out for samples and violations.
